@@ -162,6 +162,39 @@ type c11hsCase struct {
 	Expect  string `json:"expectation"`
 }
 
+// nearMissLine returns a first line that differs from the exact protocol line "SpecMPX/1\n" by a small edit.
+func nearMissLine(rt *rapid.T) string {
+	base := strings.TrimSuffix(netfx.ProtocolLine, "\n") // "SpecMPX/1"
+	junk := []string{" ", "\r", ".", ".0", ".1", "x", "0", "\t", " GET / HTTP/1.1", "/", ";", "\x00", "1"}
+	j := junk[rapid.IntRange(0, len(junk)-1).Draw(rt, "junk")]
+	var line string
+	switch rapid.IntRange(0, 7).Draw(rt, "nearmiss") {
+	case 0:
+		line = base + j + "\n" // trailing junk before the newline
+	case 1:
+		line = j + base + "\n" // leading junk
+	case 2:
+		line = strings.Replace(base, "/1", "/"+[]string{"01", "+1", "001", "1e0", " 1", "0x1", "１"}[rapid.IntRange(0, 6).Draw(rt, "ver")], 1) + "\n"
+	case 3:
+		line = []string{"specmpx/1", "SPECMPX/1", "SpecMpx/1", "SpecMPX\\1", "SpecMPX//1", "SpecMPX 1", "SpecMPX/"}[rapid.IntRange(0, 6).Draw(rt, "case")] + "\n"
+	case 4:
+		line = base + "\r\n"
+	case 5:
+		line = "\n" + base + "\n" // empty first line
+	case 6:
+		line = base[:len(base)-1] + []string{"2", "0", "10", "11", "9", "-1"}[rapid.IntRange(0, 5).Draw(rt, "othernum")] + "\n"
+	default:
+		k := rapid.IntRange(0, len(base)-1).Draw(rt, "flip")
+		b := []byte(base)
+		b[k] ^= byte(1 << uint(rapid.IntRange(0, 6).Draw(rt, "bit")))
+		line = string(b) + "\n"
+	}
+	if line == netfx.ProtocolLine {
+		line = base + " \n"
+	}
+	return line
+}
+
 // drawVersions draws a proposed version list; with10 puts the only existing protocol version (10) somewhere in it.
 func drawVersions(rt *rapid.T, with10 bool) []int32 {
 	n := rapid.IntRange(1, 4).Draw(rt, "nver")
@@ -197,7 +230,7 @@ func TestC11_Handshake(t *testing.T) {
 		t.Fatalf("infrastructure: %v", err)
 	}
 	defer e.close()
-	variants := []string{"no-line", "wrong-line", "http-line", "partial-line", "first-frame-open", "first-frame-garbage-msg", "empty-versions", "unknown-versions",
+	variants := []string{"no-line", "wrong-line", "near-miss-line", "http-line", "partial-line", "first-frame-open", "first-frame-garbage-msg", "empty-versions", "unknown-versions",
 		"mixed-versions", "unknown-compression", "lz4-then-plain", "truncated-request", "zero-length-frame", "garbage", "response-as-request", "valid"}
 	ev.CheckScaled(t, c11, 1, 1, func(rt *rapid.T) {
 		v := variants[rapid.IntRange(0, len(variants)-1).Draw(rt, "variant")]
@@ -220,6 +253,11 @@ func TestC11_Handshake(t *testing.T) {
 			send = req([]int32{10}, nil)
 		case "wrong-line":
 			send = append([]byte("SpecMPX/2\n"), req([]int32{10}, nil)...)
+		case "near-miss-line":
+			// one small edit away from the exact protocol line: trailing or leading junk, CRLF, a
+			// version that only parses to 1, case changes, a longer version number
+			line := nearMissLine(rt)
+			send = append([]byte(line), req([]int32{10}, nil)...)
 		case "http-line":
 			send = append([]byte("GET / HTTP/1.1\r\n"), req([]int32{10}, nil)...)
 		case "partial-line":
